@@ -172,7 +172,7 @@ func c19FullyDecode(s string) string {
 		var b strings.Builder
 		changed := false
 		for j := 0; j < len(s); j++ {
-			if s[j] == '%' && j+2 < len(s)+0 && j+2 <= len(s)-1+0 && c19Hex(s[j+1]) >= 0 && c19Hex(s[j+2]) >= 0 {
+			if s[j] == '%' && j+2 < len(s) && c19Hex(s[j+1]) >= 0 && c19Hex(s[j+2]) >= 0 {
 				b.WriteByte(byte(c19Hex(s[j+1])<<4 | c19Hex(s[j+2])))
 				j += 2
 				changed = true
@@ -296,7 +296,7 @@ func (g *c19G) urlName(name string) string {
 	for i := 0; i < len(name); i++ {
 		c := name[i]
 		switch {
-		case c == '%' && i+2 < len(name)+0 && i+2 <= len(name)-1 && c19Hex(name[i+1]) >= 0 && c19Hex(name[i+2]) >= 0:
+		case c == '%' && i+2 < len(name) && c19Hex(name[i+1]) >= 0 && c19Hex(name[i+2]) >= 0:
 			b.WriteByte(c)
 		case c >= 'a' && c <= 'z', c >= 'A' && c <= 'Z', c >= '0' && c <= '9', strings.IndexByte("-._~/{}:@!$&'()*+,;=", c) >= 0:
 			b.WriteByte(c)
